@@ -816,6 +816,9 @@ FIXED_FF = {
     "F8 (91d4985) 3.0": {"dims": [2, 2, 2], "names": [0, 1, 2], "qkind": "line", "ops": [{"k": "g", "g": ["XPow", {"e": 1.0, "s": 0.0}], "w": [1], "ins": 0}, {"k": "m", "key": 0, "w": [0, 1], "inv": [], "ins": 0, "conf": False}, {"k": "cc", "g": ["XPow", {"e": 1.0, "s": 0.0}], "w": [2], "ins": 0, "conds": [{"t": "eq", "ki": 0, "v": 1}]}, {"k": "m", "key": 1, "w": [2], "inv": [], "ins": 0, "conf": False}], "idle": False, "order": [0, 1, 2], "precision": 10, "version": "3.0", "header": 1, "entry": "to_qasm"},
     "C19A (20b22e4) 3.0": {"dims": [2, 2], "names": [0, 1], "qkind": "line", "ops": [{"k": "m", "key": 0, "w": [0], "inv": [], "ins": 0, "conf": False}, {"k": "cc", "g": ["HPow", {"e": 0.5, "s": 0.0}], "w": [1], "ins": 0, "conds": [{"t": "key", "ki": 0}]}, {"k": "m", "key": 1, "w": [1], "inv": [], "ins": 0, "conf": False}], "idle": False, "order": [0, 1], "precision": 10, "version": "3.0", "header": 1, "entry": "to_qasm"},
     "C19C (55bcca9) 3.0": {"dims": [2, 2], "names": [0, 1], "qkind": "line", "ops": [{"k": "m", "key": 0, "w": [0], "inv": [], "ins": 0, "conf": False}, {"k": "cc", "g": ["SwapPow", {"e": 0.5, "s": 0.0}], "w": [0, 1], "ins": 0, "conds": [{"t": "key", "ki": 0}]}], "idle": False, "order": [0, 1], "precision": 10, "version": "3.0", "header": 1, "entry": "to_qasm"},
+    "C19H multi-statement (ac9f8ab)": {"dims": [2, 2], "names": [0, 1], "qkind": "line", "ops": [{"k": "m", "key": 0, "w": [0], "inv": [], "ins": 0, "conf": False}, {"k": "cc", "g": ["HPow", {"e": 0.5, "s": 0.0}], "w": [1], "ins": 0, "conds": [{"t": "key", "ki": 0}], "form": "if"}, {"k": "m", "key": 1, "w": [1], "inv": [], "ins": 0, "conf": False}], "idle": False, "order": [0, 1], "precision": 10, "version": "2.0", "header": 1, "entry": "to_qasm"},
+    "C19H multi-statement (ac9f8ab) 3.0": {"dims": [2, 2], "names": [0, 1], "qkind": "line", "ops": [{"k": "m", "key": 0, "w": [0], "inv": [], "ins": 0, "conf": False}, {"k": "cc", "g": ["HPow", {"e": 0.5, "s": 0.0}], "w": [1], "ins": 0, "conds": [{"t": "key", "ki": 0}], "form": "if"}, {"k": "m", "key": 1, "w": [1], "inv": [], "ins": 0, "conf": False}], "idle": False, "order": [0, 1], "precision": 10, "version": "3.0", "header": 1, "entry": "to_qasm"},
+    "C19H empty body (ac9f8ab)": {"dims": [2, 2], "names": [0, 1], "qkind": "line", "ops": [{"k": "m", "key": 0, "w": [0], "inv": [], "ins": 0, "conf": False}, {"k": "cc", "g": ["GlobalPhase", {"turns": 0.25}], "w": [], "ins": 0, "conds": [{"t": "key", "ki": 0}], "form": "if"}, {"k": "g", "g": ["XPow", {"e": 1.0, "s": 0.0}], "w": [1], "ins": 0}, {"k": "m", "key": 1, "w": [1], "inv": [], "ins": 0, "conf": False}], "idle": False, "order": [0, 1], "precision": 10, "version": "2.0", "header": 1, "entry": "to_qasm"},
 }
 _EXAMPLES_GATE = list(FIXED_GATE.values())
 _EXAMPLES_FF = list(FIXED_FF.values())
